@@ -15,6 +15,12 @@ CHECKS = {
  "C05": dict(engine="session", cat="exploration", ref="4/C05",
    technique="deterministic simulation: seeded put histories on four writers over a simulated disk; finalized image decoded by an independent reference codec, byte-exact payload and index-record comparison, then the library's Inspect(true) and VerifyCar",
    text="The finalized image of every generated session must be byte-identical in its payload to the reference encoding of the model's sections, with exact header arithmetic and an index holding exactly one correct record per indexed section; sampled over options and writers."),
+ "C12": dict(engine="session", cat="exploration", ref="4/C12",
+   technique="deterministic simulation: restart (Discard/Finalize + reopen) as a generated operation on a simulated disk; byte-identity of the final file against the uninterrupted session; mutation-log check on refused reopen",
+   text="Every generated placement of restarts in a writing session must end in a file byte-identical to the uninterrupted session's; every single-field mismatch on reopen must be refused with the simulated disk's mutation log untouched. Exhaustive for <=2 (quick) / <=3 (thorough) puts with <=2 restarts per gap under 10 option sets, sampled beyond."),
+ "C20": dict(engine="session", cat="exploration", ref="4/C20",
+   technique="deterministic simulation: histories of OnPut/Has/Put/Close on the deferred writer over a call-logging simulated stream / simulated file system; I/O-trace laziness invariant and byte-equality with a directly constructed writer after every step",
+   text="After every step of every generated history: no stream write and no file before the first Put attempt; afterwards the target's bytes equal a direct writer's; callbacks fire per the registration-order model; ErrClosed after Close. Sampled histories over both targets and swarm-drawn options."),
 }
 
 NA = {
